@@ -214,3 +214,9 @@ package server
 //@   freevars ws *HttpServer
 //@   callsite ServeTLS#1 () require ws.secure                                                                                 :tls_served_only_when_secure
 //@   callsite Serve#1 () require !ws.secure                                                                                    :plain_served_only_when_not_secure
+
+// ---- the command-line form of a channel: the example given in the option's own help text
+//@ func init
+//@   property C18
+//@ property C18
+//@ fact ChannelRegex.MatchString("ssh->tcp:127.0.0.1:22")                                                     :documented_channel_flag_example_is_accepted
